@@ -383,6 +383,11 @@ fn c08(em: &mut Em, rng: &mut Rng, thorough: bool) {
     for _ in 0..(if thorough { 4000 } else { 400 }) { let v = gen_sgr(rng); let t = v.iter().map(|x| x.to_string()).collect::<Vec<_>>().join(";"); let dv = if v.is_empty() { vec![0] } else { v.clone() };
         em.probe_via_parser(rng.pick(&sts), &Op::Sgr(dv), &csi(&t, 'm'), true); }
     for s in sts.iter() { for _ in 0..(if thorough { 200 } else { 30 }) { let mut f = fork(s); let v = gen_sgr(rng); if safe(|| f.select_graphic_rendition(&v)).is_some() { em.probe(&f, &Op::Draw("Z".into())); } } }
+    // rendition x insert mode x character width x column: every cell a draw writes (the stub cell of a wide character too) carries it
+    for s in sts.iter() { for irm in [false, true] { for awm_off in [false, true] { for col in [1u32, 2, 3] {
+        let mut f = fork(s); let ok = safe(|| { if irm { f.set_mode(&[4], false); } if awm_off { f.reset_mode(&[7], true); } f.cursor_position(Some(1), Some(col)); f.dirty.clear(); }).is_some();
+        if !ok { continue; }
+        for t in ["\u{4e2d}", "a\u{4e2d}", "\u{4e2d}b", "x", "e\u{301}"] { em.probe(&f, &Op::Draw(t.to_string())); } } } } }
 }
 
 // ------------------------------------------------------------------ C04 draw
@@ -545,6 +550,11 @@ fn c20(em: &mut Em, rng: &mut Rng, _thorough: bool) {
                 em.probe_via_parser(&s, &expect, t, true); }
             em.probe_via_parser(&s, &Op::ShiftOut, "\u{e}", false); em.probe_via_parser(&s, &Op::ShiftIn, "\u{f}", false);
             em.probe_via_parser(&s, &Op::DefCharset("0".into(), "(".into()), "\u{1b}(0", false); em.probe_via_parser(&s, &Op::DefCharset("U".into(), ")".into()), "\u{1b})U", false); } } } }
+    for (g0, g1, so) in [("0", "U", false), ("U", "0", true), ("V", "B", true), ("B", "V", false)] {
+        let r = safe(|| { let mut s = Screen::new(4, 2); s.define_charset(g0, "("); s.define_charset(g1, ")"); if so { s.shift_out(); } s.draw("q"); s.dirty.clear(); s });
+        if let Some(s) = r { em.probe(&s, &Op::Restore); em.probe_via_parser(&s, &Op::Restore, "\u{1b}8", false);
+            let mut f = fork(&s); if safe(|| f.restore_cursor()).is_some() { em.probe(&f, &Op::Draw("q\u{b0}x".into())); }
+            let mut f = fork(&s); if safe(|| { f.save_cursor(); f.define_charset("B", "("); f.shift_in(); }).is_some() { em.probe(&f, &Op::Restore); } } }
     for code in ["A", "1", "", "BB", "b", "K", "\u{1b}", "\u{142}", "\u{130}", "\u{155}", "\u{156}", "\u{2030}", "\u{1f630}", "\u{ff22}"] { for slot in ["(", ")", "*", "+", ""] { let s = Screen::new(2, 1); em.probe(&s, &Op::DefCharset(code.into(), slot.into())); } }
     // the same unsupported finals through the recogniser in 8-bit mode, from a state whose tables are not the defaults
     { let mut s = Screen::new(4, 1); s.define_charset("U", "("); s.define_charset("V", ")");
@@ -939,6 +949,8 @@ fn all_strings(reps: &[char], len: usize, f: &mut dyn FnMut(String)) {
     }
 }
 fn c03(em: &mut Em, rng: &mut Rng, thorough: bool) {
+    // the token grammar is over the decoded stream: sequences interleaved with incomplete / byte-order-mark bytes, every chunking
+    cut_invariance("C03", em, false);
     // one representative per character class the grammar distinguishes
     let reps: Vec<char> = "\u{7}\u{8}\t\n\r\u{e}\u{f}\u{18}\u{1a}\u{1b}\u{9b}\u{9d}\u{9c}05;?$ >#%()[]\\8cDMH7ARPmhJr@x~\u{e9}\u{3042}\u{ff12}\u{b2}\u{663}".chars().collect();
     let reps2: Vec<char> = "\u{7}\n\u{18}\u{1b}\u{9b}\u{9d}\u{9c}5;?$ #%(][\\8cRPmHx".chars().collect();
@@ -1033,7 +1045,39 @@ fn feed_bytes_rec(chunks: &[Vec<u8>], sel: &[(usize, &str)]) -> Option<Vec<Op>> 
         let g = rec.lock().unwrap(); g.ops.clone() })
 }
 fn text_of(ops: &[Op]) -> Option<String> { let mut t = String::new(); for o in ops { match o { Op::Draw(x) => t.push_str(x), _ => return None } } Some(t) }
+/// Byte streams whose decoding must not depend on where they are cut or on a redundant charset selection at the cut:
+/// the recorded events of every 2- and 3-way chunking (optionally with select_other_charset("G"/"8") between chunks while already
+/// in UTF-8 mode) must equal those of the single feed.
+fn cut_invariance(prop: &str, em: &mut Em, redundant_select: bool) {
+    let streams: Vec<&[u8]> = vec![b"ab\xef\xbb\xbfc", b"\xef\xbb\xbfab\xef\xbb\xbf", b"\xe2\x9e\x1b[5A\x9c", b"\xc21m\xc2\x9b2J", b"\xe2\x82\x1b[1m\xacz", b"a\xe2\x82\xacb", b"\xe2\x82b",
+        b"\xf0\x9f\x98\x80x\xf0\x9f", b"\x1b]0;t\xc3\xa9\x07\xc3", b"\xc3\x1b[2Jq\xa9", b"q\xe3\x81\x82\x1b[Aw\xe3\x81"];
+    for st in streams.iter() {
+        if !em.next_id() { continue; }
+        em.arm(format!("cut invariance of {:02x?}", st));
+        let whole = feed_bytes_rec(&[st.to_vec()], &[]);
+        em.bump("chunkings");
+        let Some(whole) = whole else { em.fail("C01", format!("panic feeding {:02x?}", st)); continue; };
+        let n = st.len();
+        let mut bad: Option<String> = None;
+        'cuts: for i in 0..=n { for j in i..=n {
+            let chunks = vec![st[..i].to_vec(), st[i..j].to_vec(), st[j..].to_vec()];
+            let sels: Vec<Vec<(usize, &str)>> = if redundant_select { vec![vec![], vec![(1, "G")], vec![(2, "8")], vec![(1, "G"), (2, "G")], vec![(1, "x")]] } else { vec![vec![]] };
+            for sel in sels.iter() {
+                match feed_bytes_rec(&chunks, sel) {
+                    None => { bad = Some(format!("panic: chunks {:02x?} select_other_charset before chunk {:?}", chunks, sel)); break 'cuts; }
+                    Some(ops) => if ops_text(&ops) != ops_text(&whole) { bad = Some(format!("chunks {:02x?} (select_other_charset before chunk {:?}) deliver {:?}, the single feed delivers {:?}", chunks, sel, ops_text(&ops), ops_text(&whole))); break 'cuts; } } } } }
+        if let Some(b) = bad { em.fail(prop, b); }
+    }
+}
+/// events with adjacent draws merged (the plain-text fast path may split text differently for different chunkings)
+fn ops_text(ops: &[Op]) -> Vec<String> {
+    let mut out: Vec<String> = Vec::new(); let mut acc = String::new();
+    for o in ops { match o { Op::Draw(t) => acc.push_str(t), other => { if !acc.is_empty() { out.push(format!("draw {:?}", acc)); acc.clear(); } out.push(format!("{:?}", other)); } } }
+    if !acc.is_empty() { out.push(format!("draw {:?}", acc)); }
+    out
+}
 fn c11(em: &mut Em, rng: &mut Rng, thorough: bool) {
+    cut_invariance("C11", em, true);
     let reps: Vec<u8> = vec![0x00, 0x41, 0x7f, 0x80, 0x8f, 0x90, 0x9f, 0xa0, 0xbb, 0xbf, 0xc0, 0xc1, 0xc2, 0xdf, 0xe0, 0xe1, 0xec, 0xed, 0xee, 0xef, 0xf0, 0xf1, 0xf3, 0xf4, 0xf5, 0xfe, 0xff];
     let maxlen = if thorough { 4 } else { 3 };
     let mut cases: Vec<Vec<u8>> = Vec::new();
